@@ -1,5 +1,6 @@
 // Interpreter of plan ops. Every op logs a C(all) record before and an R(eturn) record after, with results.
 #include "s4usim.hpp"
+#include <deque>
 #include <simgrid/modelchecker.h>
 
 namespace vs {
@@ -237,7 +238,23 @@ void do_op(Ctx& c, int idx, const Op& op)
     auto* p = mkpayload(c, idx, num(a[1]));
     kv(r, "payload", p->id);
     exc = guarded([&] {
-      if (hasopt(a, "rate") || hasopt(a, "onesimcall")) { // unstarted comm waited directly: one isend+wait simcall
+      if (hasopt(a, "tag") || hasopt(a, "want")) { // [tag=T] [want=K]: match data / match filter (low-level s4u API)
+        static std::deque<long> tagstore;        // match data must outlive the communication
+        void* mydata = nullptr;
+        if (hasopt(a, "tag")) {
+          tagstore.push_back(atol(optarg(a, "tag").c_str()));
+          mydata = &tagstore.back();
+        }
+        std::function<bool(void*, void*, simgrid::kernel::activity::CommImpl*)> filter;
+        if (hasopt(a, "want")) {
+          long want = atol(optarg(a, "want").c_str());
+          filter    = [want](void*, void* theirs, simgrid::kernel::activity::CommImpl*) {
+            return theirs != nullptr && *static_cast<long*>(theirs) == want;
+          };
+        }
+        sg4::Comm::send(c.self->get_impl(), mboxes.at(a[0]), num(a[1]), -1, p, sizeof(void*), filter, nullptr, mydata,
+                        hasopt(a, "timeout") ? num(optarg(a, "timeout")) : -1);
+      } else if (hasopt(a, "rate") || hasopt(a, "onesimcall")) { // unstarted comm waited directly: one isend+wait simcall
         auto comm = mboxes.at(a[0])->put_init(p, (uint64_t)num(a[1]));
         comm->set_name(slotname);
         if (hasopt(a, "rate"))
@@ -274,7 +291,26 @@ void do_op(Ctx& c, int idx, const Op& op)
   } else if (k == "get") { // MBOX [timeout=T]
     exc = guarded([&] {
       Payload* p;
-      if (hasopt(a, "timeout"))
+      if (hasopt(a, "tag") || hasopt(a, "want")) { // filtered receive (low-level s4u API)
+        static std::deque<long> tagstore;
+        void* mydata = nullptr;
+        if (hasopt(a, "tag")) {
+          tagstore.push_back(atol(optarg(a, "tag").c_str()));
+          mydata = &tagstore.back();
+        }
+        std::function<bool(void*, void*, simgrid::kernel::activity::CommImpl*)> filter;
+        if (hasopt(a, "want")) {
+          long want = atol(optarg(a, "want").c_str());
+          filter    = [want](void*, void* theirs, simgrid::kernel::activity::CommImpl*) {
+            return theirs != nullptr && *static_cast<long*>(theirs) == want;
+          };
+        }
+        void* buf   = nullptr;
+        size_t size = sizeof(void*);
+        sg4::Comm::recv(c.self->get_impl(), mboxes.at(a[0]), &buf, &size, filter, nullptr, mydata,
+                        hasopt(a, "timeout") ? num(optarg(a, "timeout")) : -1, -1);
+        p = static_cast<Payload*>(buf);
+      } else if (hasopt(a, "timeout"))
         p = mboxes.at(a[0])->get<Payload>(num(optarg(a, "timeout")));
       else
         p = mboxes.at(a[0])->get<Payload>();
